@@ -44,6 +44,7 @@
 #include <AIToolbox/MDP/Algorithms/ImportanceSampling.hpp>
 #include <AIToolbox/MDP/Algorithms/PrioritizedSweeping.hpp>
 #include <AIToolbox/MDP/Algorithms/DynaQ.hpp>
+#include <AIToolbox/MDP/Algorithms/Dyna2.hpp>
 #include <AIToolbox/MDP/Model.hpp>
 #undef private
 #undef protected
@@ -83,7 +84,8 @@ struct ScriptModel {
     size_t getS() const { return S; }
     size_t getA() const { return A; }
     double getDiscount() const { return discount; }
-    bool isTerminal(size_t) const { return false; }
+    std::vector<bool> terminal;
+    bool isTerminal(size_t s) const { return s < terminal.size() && terminal[s]; }
     std::tuple<size_t, double> sampleSR(size_t s, size_t a) const {
         asked.emplace_back(s, a);
         auto [s1, r] = script.at(pos++);
@@ -92,6 +94,75 @@ struct ScriptModel {
     // DynaQ::batchUpdateQ calls model_.sample(s, a)
     std::tuple<size_t, double> sample(size_t s, size_t a) const { return sampleSR(s, a); }
 };
+
+// run-time setter op: a single capital letter followed by the new value
+static bool isOp(vio::Cursor & c) {
+    if (c.atEnd()) return false;
+    const std::string & t = c.peek();
+    return t.size() == 1 && t[0] >= 'A' && t[0] <= 'Z';
+}
+
+// a model answering probability / reward queries only (IsModel, not IsModelEigen): drives the
+// non-Eigen branch of PrioritizedSweeping::stepUpdateQ
+struct TableModel {
+    size_t S, A; double discount;
+    std::vector<double> T, R;     // [s][a][s1]
+    size_t getS() const { return S; }
+    size_t getA() const { return A; }
+    double getDiscount() const { return discount; }
+    bool isTerminal(size_t) const { return false; }
+    double getTransitionProbability(size_t s, size_t a, size_t s1) const { return T[(s * A + a) * S + s1]; }
+    double getExpectedReward(size_t s, size_t a, size_t s1) const { return R[(s * A + a) * S + s1]; }
+    std::tuple<size_t, double> sampleSR(size_t, size_t) const { return std::make_tuple((size_t) 0, 0.0); }
+};
+static_assert(MDP::IsModel<TableModel> && !MDP::IsModelEigen<TableModel>);
+
+// policy replaying scripted actions (Dyna2's internal policy)
+struct ScriptPolicy : public MDP::PolicyInterface {
+    mutable std::vector<size_t> script; mutable size_t pos = 0;
+    ScriptPolicy(size_t s, size_t a) : AIToolbox::PolicyInterface<size_t, size_t, size_t>(s, a) {}
+    size_t sampleAction(const size_t &) const override { return script.at(pos++); }
+    double getActionProbability(const size_t &, const size_t &) const override { return 1.0 / A; }
+    Matrix2D getPolicy() const override { Matrix2D m(S, A); m.fill(1.0 / A); return m; }
+};
+
+template <typename PS, typename F>
+static void runPS(vio::Cursor & c, vio::Out & o, PS & ps, size_t S, size_t A, bool quiesce, F) {
+    auto dump = [&]() {
+        dumpTable(o, ps.getQFunction());
+        const auto & vf = ps.getValueFunction();
+        for (size_t s = 0; s < S; ++s) o << vf.values[s];
+        for (size_t s = 0; s < S; ++s) o << vf.actions[s];
+        o << (size_t) ps.queue_.size();
+        for (auto it = ps.queue_.begin(); it != ps.queue_.end(); ++it) o << it->stateAction.first << it->stateAction.second << it->priority;
+        o << (size_t) ps.queueHandles_.size();
+    };
+    if (!quiesce) {
+        size_t nops = c.nextSize();
+        for (size_t i = 0; i < nops; ++i) {
+            const std::string op = c.next();
+            if (op == "s") { size_t s = c.nextSize(), a = c.nextSize(); ps.stepUpdateQ(s, a); }
+            else if (op == "b") {            // N single pops, reporting queue_.top() before each
+                size_t N = c.nextSize(); ps.setN(1);
+                std::vector<size_t> tops;
+                for (size_t j = 0; j < N && !ps.queue_.empty(); ++j) {
+                    auto t = ps.queue_.top(); tops.push_back(t.stateAction.first); tops.push_back(t.stateAction.second);
+                    ps.batchUpdateQ();
+                }
+                o.list(tops);
+            } else if (op == "B") { size_t N = c.nextSize(); ps.setN((unsigned) N); ps.batchUpdateQ(); }
+            else throw std::logic_error("unknown ps op " + op);
+            dump();
+        }
+    } else {
+        for (size_t s = 0; s < S; ++s) for (size_t a = 0; a < A; ++a) ps.stepUpdateQ(s, a);
+        ps.setN(1000);
+        size_t rounds = 0;
+        while (ps.getQueueLength() > 0 && rounds < 2000) { ps.batchUpdateQ(); ++rounds; }
+        o << rounds;
+        dump();
+    }
+}
 
 int main(int argc, char ** argv) {
     return vio::runCases(argc, argv, [](vio::Cursor & c, vio::Out & o) {
@@ -106,6 +177,13 @@ int main(int argc, char ** argv) {
             HystereticQLearning hy(S, A, gamma, alpha, beta);
             DoubleQLearning dq(S, A, gamma, alpha);
             for (size_t i = 0; i < n; ++i) {
+                while (isOp(c)) {
+                    const char op = c.next()[0]; const double v = c.nextDouble();
+                    if (op == 'A') { ql.setLearningRate(v); hy.setPositiveLearningRate(v); dq.setLearningRate(v); }
+                    else if (op == 'B') hy.setNegativeLearningRate(v);
+                    else if (op == 'G') { ql.setDiscount(v); hy.setDiscount(v); dq.setDiscount(v); }
+                    else throw std::logic_error("unknown setter");
+                }
                 size_t s = c.nextSize(), a = c.nextSize(), s1 = c.nextSize(); double r = c.nextDouble();
                 if (kind == "ql") ql.stepUpdateQ(s, a, s1, r);
                 else if (kind == "hyst") hy.stepUpdateQ(s, a, s1, r);
@@ -128,6 +206,10 @@ int main(int argc, char ** argv) {
             size_t every = c.nextSize(), n = c.nextSize();
             SARSA l(S, A, gamma, alpha);
             for (size_t i = 0; i < n; ++i) {
+                while (isOp(c)) {
+                    const char op = c.next()[0]; const double v = c.nextDouble();
+                    if (op == 'A') l.setLearningRate(v); else if (op == 'G') l.setDiscount(v); else throw std::logic_error("unknown setter");
+                }
                 size_t s = c.nextSize(), a = c.nextSize(), s1 = c.nextSize(), a1 = c.nextSize(); double r = c.nextDouble();
                 l.stepUpdateQ(s, a, s1, a1, r);
                 if ((i + 1) % every == 0 || i + 1 == n) dumpTable(o, l.getQFunction());
@@ -140,6 +222,10 @@ int main(int argc, char ** argv) {
             QFunction q = makeQFunction(S, A);
             ExpectedSARSA l(q, pol, gamma, alpha);
             for (size_t i = 0; i < n; ++i) {
+                while (isOp(c)) {
+                    const char op = c.next()[0]; const double v = c.nextDouble();
+                    if (op == 'A') l.setLearningRate(v); else if (op == 'G') l.setDiscount(v); else throw std::logic_error("unknown setter");
+                }
                 size_t s = c.nextSize(), a = c.nextSize(), s1 = c.nextSize(); double r = c.nextDouble();
                 for (size_t x = 0; x < A; ++x) pol.table(s1, x) = c.nextDouble();
                 l.stepUpdateQ(s, a, s1, r);
@@ -151,6 +237,12 @@ int main(int argc, char ** argv) {
             size_t every = c.nextSize(), n = c.nextSize();
             SARSAL l(S, A, gamma, alpha, lambda, tol);
             for (size_t i = 0; i < n; ++i) {
+                while (isOp(c)) {
+                    const char op = c.next()[0]; const double v = c.nextDouble();
+                    if (op == 'A') l.setLearningRate(v); else if (op == 'G') l.setDiscount(v);
+                    else if (op == 'L') l.setLambda(v); else if (op == 'T') l.setTolerance(v);
+                    else throw std::logic_error("unknown setter");
+                }
                 size_t s = c.nextSize(), a = c.nextSize(), s1 = c.nextSize(), a1 = c.nextSize(); double r = c.nextDouble();
                 l.stepUpdateQ(s, a, s1, a1, r);
                 if ((i + 1) % every == 0 || i + 1 == n) { dumpTable(o, l.getQFunction()); dumpTraces(o, l.getTraces()); }
@@ -181,6 +273,19 @@ int main(int argc, char ** argv) {
                 else throw std::logic_error("unknown off-policy kind " + k);
             }
             for (size_t i = 0; i < n; ++i) {
+                while (isOp(c)) {
+                    const char op = c.next()[0]; const double v = c.nextDouble();
+                    if (op == 'A') base->setLearningRate(v); else if (op == 'G') base->setDiscount(v);
+                    else if (op == 'T') base->setTolerance(v);
+                    else if (op == 'L') {
+                        if (c_ql) c_ql->setLambda(v); else if (c_re) c_re->setLambda(v); else if (c_tb) c_tb->setLambda(v);
+                        else if (e_ql) e_ql->setLambda(v); else if (e_re) e_re->setLambda(v); else if (e_tb) e_tb->setLambda(v);
+                        else throw std::logic_error("ImportanceSampling has no lambda");
+                    } else if (op == 'E') {
+                        if (c_ql) c_ql->setEpsilon(v); else if (c_re) c_re->setEpsilon(v); else if (c_tb) c_tb->setEpsilon(v);
+                        else if (c_is) c_is->setEpsilon(v); else throw std::logic_error("evaluation learners have no epsilon");
+                    } else throw std::logic_error("unknown setter");
+                }
                 size_t s = c.nextSize(), a = c.nextSize(), s1 = c.nextSize(); double r = c.nextDouble();
                 if (c_ql) c_ql->stepUpdateQ(s, a, s1, r); else if (c_re) c_re->stepUpdateQ(s, a, s1, r);
                 else if (c_tb) c_tb->stepUpdateQ(s, a, s1, r); else if (c_is) c_is->stepUpdateQ(s, a, s1, r);
@@ -198,39 +303,53 @@ int main(int argc, char ** argv) {
             readMatrix(c, R);
             MDP::Model model(NO_CHECK, S, A, std::move(T), std::move(R), gamma);
             PrioritizedSweeping<MDP::Model> ps(model, theta, 1);
-            auto dump = [&]() {
-                dumpTable(o, ps.getQFunction());
-                const auto & vf = ps.getValueFunction();
-                for (size_t s = 0; s < S; ++s) o << vf.values[s];
-                for (size_t s = 0; s < S; ++s) o << vf.actions[s];
-                o << (size_t) ps.queue_.size();
-                for (auto it = ps.queue_.begin(); it != ps.queue_.end(); ++it) o << it->stateAction.first << it->stateAction.second << it->priority;
-                o << (size_t) ps.queueHandles_.size();
-            };
-            if (kind == "ps") {
-                size_t nops = c.nextSize();
-                for (size_t i = 0; i < nops; ++i) {
-                    const std::string op = c.next();
-                    if (op == "s") { size_t s = c.nextSize(), a = c.nextSize(); ps.stepUpdateQ(s, a); }
-                    else if (op == "b") {            // N single pops, reporting queue_.top() before each
-                        size_t N = c.nextSize(); ps.setN(1);
-                        std::vector<size_t> tops;
-                        for (size_t j = 0; j < N && !ps.queue_.empty(); ++j) {
-                            auto t = ps.queue_.top(); tops.push_back(t.stateAction.first); tops.push_back(t.stateAction.second);
-                            ps.batchUpdateQ();
-                        }
-                        o.list(tops);
-                    } else if (op == "B") { size_t N = c.nextSize(); ps.setN((unsigned) N); ps.batchUpdateQ(); }
-                    else throw std::logic_error("unknown ps op " + op);
-                    dump();
-                }
-            } else {
-                for (size_t s = 0; s < S; ++s) for (size_t a = 0; a < A; ++a) ps.stepUpdateQ(s, a);
-                ps.setN(1000);
-                size_t rounds = 0;
-                while (ps.getQueueLength() > 0 && rounds < 2000) { ps.batchUpdateQ(); ++rounds; }
-                o << rounds;
-                dump();
+            runPS(c, o, ps, S, A, kind == "psq", 0);
+        } else if (kind == "psn") {
+            // psn S A gamma theta T[s][a][s1] R[s][a][s1] nops ops : non-Eigen branch
+            size_t S = c.nextSize(), A = c.nextSize();
+            double gamma = c.nextDouble(), theta = c.nextDouble();
+            TableModel model{S, A, gamma, {}, {}};
+            model.T.resize(S * A * S); model.R.resize(S * A * S);
+            for (auto & x : model.T) x = c.nextDouble();
+            for (auto & x : model.R) x = c.nextDouble();
+            PrioritizedSweeping<TableModel> ps(model, theta, 1);
+            runPS(c, o, ps, S, A, false, 0);
+        } else if (kind == "dyna2") {
+            // dyna2 S A alpha gamma lambda tol <nterm> <terminal states> nops
+            //   ( s <s a s1 a1 r> | b <initS> <N> <a0> (<s1> <r> <a1> <ar>)*N | r | P <l> | Q <l> | T <t> )*
+            size_t S = c.nextSize(), A = c.nextSize();
+            double alpha = c.nextDouble(), gamma = c.nextDouble(), lambda = c.nextDouble(), tol = c.nextDouble();
+            ScriptModel model{S, A, gamma};
+            model.terminal.assign(S, false);
+            for (size_t s : c.nextSizes()) model.terminal.at(s) = true;
+            Dyna2<ScriptModel> d(model, alpha, lambda, tol, 1);
+            ScriptPolicy * pol = new ScriptPolicy(S, A);
+            d.setInternalPolicy(pol);           // Dyna2 owns it from here on
+            size_t nops = c.nextSize();
+            for (size_t i = 0; i < nops; ++i) {
+                const std::string op = c.next();
+                if (op == "s") {
+                    size_t s = c.nextSize(), a = c.nextSize(), s1 = c.nextSize(), a1 = c.nextSize(); double r = c.nextDouble();
+                    d.stepUpdateQ(s, a, s1, a1, r);
+                } else if (op == "b") {
+                    size_t initS = c.nextSize(), N = c.nextSize(), a0 = c.nextSize();
+                    model.script.clear(); model.pos = 0; model.asked.clear();
+                    pol->script.clear(); pol->pos = 0; pol->script.push_back(a0);
+                    for (size_t j = 0; j < N; ++j) {
+                        size_t s1 = c.nextSize(); double r = c.nextDouble(); size_t a1 = c.nextSize(), ar = c.nextSize();
+                        model.script.emplace_back(s1, r);
+                        pol->script.push_back(a1);
+                        if (model.isTerminal(s1)) pol->script.push_back(ar);
+                    }
+                    d.setN((unsigned) N);
+                    d.batchUpdateQ(initS);
+                } else if (op == "r") d.resetTransientLearning();
+                else if (op == "P") d.setPermanentLambda(c.nextDouble());
+                else if (op == "Q") d.setTransientLambda(c.nextDouble());
+                else if (op == "T") d.setTolerance(c.nextDouble());
+                else throw std::logic_error("unknown dyna2 op " + op);
+                dumpTable(o, d.getPermanentQFunction()); dumpTraces(o, d.permanentLearning_.getTraces());
+                dumpTable(o, d.getTransientQFunction()); dumpTraces(o, d.transientLearning_.getTraces());
             }
         } else if (kind == "dyna") {
             // dyna S A alpha gamma nops ( s <s> <a> <s1> <r> | b <N> (<s1> <r>)*N )*
@@ -252,7 +371,8 @@ int main(int argc, char ** argv) {
                     d.batchUpdateQ();
                     o << (size_t) model.asked.size();
                     for (auto & [s, a] : model.asked) o << s << a;
-                } else throw std::logic_error("unknown dyna op " + op);
+                } else if (op == "a") { d.setLearningRate(c.nextDouble()); }
+                else throw std::logic_error("unknown dyna op " + op);
                 dumpTable(o, d.getQFunction());
             }
         } else throw std::logic_error("unknown case kind " + kind);
